@@ -122,3 +122,17 @@ package main
 // must be able to hold a report while nobody is receiving.
 //@ func Balancer.GetCurrentState property C05,C06 safety -bounds,-nil,-makeslice
 //@   at assign errs#1: assert cap(errs) >= 1
+
+// The wire form of a trash / pull request: the bare 32-character hash, the
+// replica's timestamp as recorded in the Trash decision, the UUID of the mount
+// the decision was made for; a pull names the source server's URL and the
+// destination mount.  (The JSON field names are struct tags; they are fixed
+// text, not behaviour, and are not covered.)
+//@ func Trash.MarshalJSON property C05 safety -bounds,-nil
+//@   at assign .Locator#1: assert $v == string(t.SizedDigest)[0:32]
+//@   at assign .BlockMtime#1: assert $v == t.Mtime
+//@   at assign .MountUUID#1: assert $v == t.From.KeepMount.UUID
+//@ func Pull.MarshalJSON property C05 safety -bounds,-nil
+//@   at assign .Locator#1: assert $v == string(p.SizedDigest)[0:32]
+//@   at assign .MountUUID#1: assert $v == p.To.KeepMount.UUID
+//@   calls KeepService.URLBase#1: requires $recv == p.From
